@@ -93,6 +93,9 @@ STMT_CAUSES = [
     ('resume-without-error', [], 'RESUME', None),
     ('resume-next-without-error', [], 'RESUME NEXT', None),
     ('byref-record', ['DIM zrr AS zt', 'zrr.a = 1', 'zrr.b = 2'], 'zprec zrr', 'ok'),
+    ('dim-tie-bounds', ['DIM zfb(0.5 TO 3)', 'DIM zfc(2.5 TO 4.5) AS LONG', 'zg% = 7'], 'zfb(3) = 1: zfc(4) = 2: zfb(0) = 3: zfc(2) = 4: PRINT zg%', 'ok'),
+    ('dim-tie-bounds-last', ['zg% = 7', 'DIM zfb(-1.5 TO 2.5) AS STRING'], 'zfb(2) = "x": zfb(-2) = "y": PRINT zfb(2); zg%', 'ok'),
+    ('dim-3d-uneven', ['DIM zcube(1 TO 2, 1 TO 3, 1 TO 2) AS INTEGER', 'zg% = 7'], 'zcube(2, 3, 2) = 5: zcube(1, 3, 1) = 6: PRINT zcube(2, 1, 1); zg%', 'ok'),
     ('print-using-few', [], 'PRINT USING "## ##"; 1', None),
     ('print-using-many', [], 'PRINT USING "##"; 1; 2', None),
     ('print-using-strnum', [], 'PRINT USING "##"; "a"', None),
